@@ -2,11 +2,12 @@
 import io
 import json
 import os
+import re
 import shutil
 import tempfile
 from fractions import Fraction
 
-from common import time_limit, hex6, unhex6
+from common import time_limit, hex6, unhex6, Timeout
 from gen import c13docs
 
 ID = "C13"
@@ -28,16 +29,19 @@ MODELLED_NOT_VERIFIED = [
     "C13: one taxon namespace per call in the model (documents with at most one TAXA block); case-sensitive namespaces and non-ASCII labels are not modelled",
 ]
 EXPLANATION = ("Theorems (Props/C13.lean, about the definitions drv_c13 runs; the shared tree-statement parser is never unfolded): "
-               "newick_reader_eq_yielder and trees_block_reader_eq_yielder (the separately written yielder loops deliver exactly what the reader "
-               "loops put into one list: same trees, order, namespace, errors; unconditional), reader_eq_yielder_partial (whole NEXUS stream; "
-               "partial: documents whose block loop meets no SETS/ASSUMPTIONS/CODONS block, same `attached` flag on both sides), "
-               "whole_eq_flatten (TreeList.get = the collections concatenated), incremental_eq_whole (read into an existing list = existing ++ "
-               "fresh read), incremental_collection, dataset_eq_lists_partial (partial: same exclude_chars on both sides), offset_spec / "
-               "offset_neg_spec / offset_default / offset_list_spec / offset_list_default / offsets_enumerate_whole (offsets pick exactly "
-               "blocks[c][k] resp. blocks[c][k:], Python negative indices included), tree_get_label (label= renames, nothing else; without it the "
-               "source's name is kept). Generated documents avoid three input classes that are proposed as known findings (several TAXA blocks "
-               "through TreeList.get; a TAXA block read into a namespace holding other taxa; taxon numbers read into a pre-populated namespace): "
-               "their stored witnesses are replayed on every run once listed in known_findings.json.")
+               "newick_reader_eq_yielder, trees_block_reader_eq_yielder (the separately written yielder loops deliver exactly what the reader "
+               "loops put into one list: same trees, order, namespace, errors; unconditional; the TRANSLATE branch reuses the block's mapper on "
+               "both sides, which /repo does once fixes/C13-yielder-translate-mapper.patch is in), yield_eq_list_newick (route level: the yield "
+               "op = the list op), reader_eq_yielder_partial and yield_eq_list_nexus_partial (whole NEXUS stream; partial: documents whose "
+               "block loop meets no SETS/ASSUMPTIONS/CODONS block - counted per run in input_distribution - and the reader side run with the "
+               "yielder's attached namespace; the attached/non-attached residue is compared by the correspondence on every document), "
+               "whole_eq_flatten, incremental_eq_whole (consequences of the reader being parametric in the tree-list factory, which is how the "
+               "code is written: tree_list_factory is an argument), incremental_collection, dataset_eq_lists_partial (same exclude_chars on both "
+               "sides only), offset_spec / offset_neg_spec / offset_default / offset_list_spec / offset_list_default / offsets_enumerate_whole / "
+               "tree_get_label (Tree.get / TreeList.get are 'read every collection, then index', in the code and in the model alike: the content "
+               "of these theorems is the Python indexing arithmetic incl. negative offsets and that label= touches nothing but the name). "
+               "Loops that re-check progress at run time answer `stuck` otherwise; a stuck answer is a disagreement (never observed). "
+               "Generated documents avoid three input classes listed as known findings; their witnesses are replayed on every run.")
 
 ROUTE_TIMEOUT = 20
 
@@ -125,12 +129,10 @@ def classify(a, b):
 
 def err_name(e):
     from dendropy.utility import error
-    if isinstance(e, IndexError):
-        return "IndexError"
     if isinstance(e, error.DataParseError):
         return "parse"
-    if isinstance(e, ValueError):
-        return "ValueError"
+    if isinstance(e, (IndexError, ValueError)):
+        return "offset"          # nothing at the requested offsets; the exception class is not part of the statement
     return "Internal(%s)" % type(e).__name__
 
 
@@ -314,6 +316,9 @@ class Case(object):
         try:
             with time_limit(ROUTE_TIMEOUT):
                 return fn()
+        except Timeout:
+            self.fail("route-error", route, "does not finish within %d s although TreeList.get reads the source" % ROUTE_TIMEOUT, **extra)
+            return None
         except Exception as e:
             self.fail("route-error", route, "raises %s (%s) although TreeList.get reads the source" % (type(e).__name__, str(e)[:150]), **extra)
             return None
@@ -397,6 +402,12 @@ def check_tree_routes(ctx, dendropy, doc, mode, tmpdir, full=True):
             if got is not None:
                 case.same(name, got, bl[k:], "trees %d.. of collection %d" % (k, c), coll=c, tree=k)
     if blocks and full:
+        bl = blocks[-1]
+        for kn in ([-1, -len(bl)] if bl else []):
+            name = "TreeList.get(collection_offset=-1, tree_offset=%d)" % kn
+            got = case.attempt(name, lambda: R.tree_list("data", collection_offset=-1, tree_offset=kn), coll=-1, tree=kn)
+            if got is not None:
+                case.same(name, got, bl[kn:], "the last %d trees of the last collection" % -kn, coll=-1, tree=kn)
         k = len(blocks[0]) // 2
         if blocks[0]:
             got = case.attempt("TreeList.get(tree_offset=%d)" % k, lambda: R.tree_list("data", tree_offset=k), tree=k)
@@ -452,22 +463,29 @@ def check_tree_array(case, dendropy, R, src, schema, opts, ref):
         ta.read(schema=schema, **k)
         tl = dendropy.TreeList.get(data=src.text, schema=schema, taxon_namespace=ta.taxon_namespace, **opts)
         return ta, tl
+    if not all(array_comparable(t) for t in ref):
+        # trees whose encoding keeps two edges with one split are the split encoder's business (see array_comparable);
+        # the array may also refuse them outright: the route is judged on documents free of them, and there strictly
+        comparable_only = False
+    else:
+        comparable_only = True
     try:
         with time_limit(ROUTE_TIMEOUT):
             r = run()
-    except Exception as e:
-        # does the array refuse these very trees when they are handed over after a TreeList.get?  Then the refusal is the
-        # array's (split encoding of that tree, C05/C06), not a difference between reading routes.
-        try:
-            tl = dendropy.TreeList.get(data=src.text, schema=schema, **opts)
-            dendropy.TreeArray(taxon_namespace=tl.taxon_namespace).add_trees(tl)
-        except Exception as e2:
-            if type(e2) is type(e):
-                case.ctx.count("treearray_refuses_trees:" + type(e).__name__)
-                return
-        case.fail("route-error", "TreeArray.read", "raises %s (%s) although TreeArray.add_trees accepts the trees read by TreeList.get" % (
-            type(e).__name__, str(e)[:150]))
+    except Timeout:
+        case.fail("route-error", "TreeArray.read", "does not finish within %d s" % ROUTE_TIMEOUT)
         return
+    except Exception as e:
+        if comparable_only:
+            case.fail("route-error", "TreeArray.read", "raises %s (%s) although TreeList.get reads the source" % (type(e).__name__, str(e)[:150]))
+        else:
+            case.ctx.count("treearray_raises_on_uncomparable_trees:" + type(e).__name__)
+        return
+    for attr in ("_tree_split_bitmasks", "_tree_leafset_bitmasks", "_tree_edge_lengths", "_tree_weights"):
+        if not hasattr(r[0], attr):
+            case.ctx.note("TreeArray has no attribute %s any more: its per-tree records are not compared" % attr)
+            case.ctx.count("treearray_records_unavailable")
+            return
     ta, tl = r
     if len(ta._tree_split_bitmasks) != len(tl):
         case.fail("route", "TreeArray.read", "records %d trees, TreeList.get delivers %d" % (len(ta._tree_split_bitmasks), len(tl)))
@@ -499,7 +517,7 @@ def check_tree_array(case, dendropy, R, src, schema, opts, ref):
 
 
 def check_refused_by_list_only(ctx, dendropy, doc, kind="route-error"):
-    """TreeList.get refuses the source: then the data set and the iterator must refuse it too"""
+    """TreeList.get refuses the source: then neither the data set nor the iterator may read it"""
     schema, text, opts = doc["schema"], doc["text"], doc["opts"]
     ok = []
     for name, fn in (("DataSet.get", lambda: dendropy.DataSet.get(data=text, schema=schema, **opts)),
@@ -510,13 +528,59 @@ def check_refused_by_list_only(ctx, dendropy, doc, kind="route-error"):
             ok.append(name)
         except Exception:
             pass
-    if len(ok) == 2:
+    if ok:
         try:
             dendropy.TreeList.get(data=text, schema=schema, **opts)
             return
         except Exception as e:
             Case(ctx, doc, "fresh").fail(kind, "TreeList.get", "raises %s (%s) although %s read the source" % (
                 type(e).__name__, str(e)[:120], " and ".join(ok)), probe="refused-by-list-only")
+
+
+def check_two_sources(case, dendropy, docA, docB, first, alone, schema, opts):
+    """routes that take several sources: the iterator and the array over [A, B], the data set read twice"""
+    tk = TaxKey(None)
+    lower = lambda labels: [None if x is None else x.lower() for x in labels]
+    want = [tree_rec(t, tk) for t in first] + [tree_rec(t, tk) for t in alone]
+    extra = {"first": docA["text"]}
+
+    def same(route, got_trees):
+        got = [tree_rec(t, tk) for t in got_trees]
+        if len(got) != len(want):
+            case.fail("route", route, "delivers %d trees, the two sources read one by one hold %d + %d" % (len(got), len(first), len(alone)), **extra)
+        elif strip_taxa(got) != strip_taxa(want) or lower(taxa_of(got)) != lower(taxa_of(want)):
+            case.fail("route", route, "differs from the two sources read one by one: %s" % first_diff(got, want), **extra)
+    name = "Tree.yield_from_files([A, B])"
+    got = case.attempt(name, lambda: list(dendropy.Tree.yield_from_files([io.StringIO(docA["text"]), io.StringIO(docB["text"])], schema, **opts)), **extra)
+    if got is not None:
+        same(name, got)
+    name = "DataSet.get(A) then DataSet.read(B)"
+
+    def two_reads():
+        ds = dendropy.DataSet.get(data=docA["text"], schema=schema, **opts)
+        n0 = len(ds.tree_lists)
+        ds.read(data=docB["text"], schema=schema, **opts)
+        return ds, n0
+    r = case.attempt(name, two_reads, **extra)
+    if r is not None:
+        ds, n0 = r
+        same(name, [t for tl in ds.tree_lists for t in tl])
+        alone_ds = dendropy.DataSet.get(data=docB["text"], schema=schema, **opts)
+        if [len(tl) for tl in ds.tree_lists[n0:]] != [len(tl) for tl in alone_ds.tree_lists]:
+            case.fail("route", name, "second read adds collections of sizes %s, the source read alone has %s" % (
+                [len(tl) for tl in ds.tree_lists[n0:]], [len(tl) for tl in alone_ds.tree_lists]), **extra)
+    rootings = set(t.is_rooted for t in list(first) + list(alone))
+    recs = want
+    if len(rootings) == 1 and recs and all(array_comparable(r_) for r_ in recs) and not opts.get("suppress_leaf_node_taxa"):
+        name = "TreeArray.read_from_files([A, B])"
+
+        def arr():
+            ta = dendropy.TreeArray()
+            ta.read_from_files([io.StringIO(docA["text"]), io.StringIO(docB["text"])], schema, **opts)
+            return ta
+        ta = case.attempt(name, arr, **extra)
+        if ta is not None and hasattr(ta, "_tree_split_bitmasks") and len(ta._tree_split_bitmasks) != len(want):
+            case.fail("route", name, "records %d trees, the two sources hold %d + %d" % (len(ta._tree_split_bitmasks), len(first), len(alone)), **extra)
 
 
 def check_shared_identity(ctx, dendropy, docA, docB, tmpdir):
@@ -538,6 +602,7 @@ def check_shared_identity(ctx, dendropy, docA, docB, tmpdir):
         tl = dendropy.TreeList.get(data=docA["text"], schema=schema, **opts)
         n = tl.read(data=docB["text"], schema=schema, **opts)
         return tl, n
+    check_two_sources(case, dendropy, docA, docB, first, alone, schema, opts)
     r = case.attempt("TreeList.read after TreeList.get", run, first=docA["text"])
     if r is None:
         return
@@ -545,15 +610,13 @@ def check_shared_identity(ctx, dendropy, docA, docB, tmpdir):
     tk = TaxKey(None)
     got = [tree_rec(t, tk) for t in tl[len(first):]]
     want = [tree_rec(t, tk) for t in alone]
-    # labels of taxa may differ in case only when the first source introduced the taxon (case-insensitive namespace)
-    def fold(x):
-        return json.loads(json.dumps(x), object_hook=None)
     if n != len(alone) or len(tl) != len(first) + len(alone):
         case.fail("route", "TreeList.read after TreeList.get", "adds %d trees (reports %d), reading the source alone gives %d" % (
             len(tl) - len(first), n, len(alone)), first=docA["text"])
         return
-    lower = lambda recs: json.loads(json.dumps(recs).lower())
-    if lower(strip_taxa(got)) != lower(strip_taxa(want)) or lower(taxa_of(got)) != lower(taxa_of(want)):
+    # the label of a taxon may differ in case only: the first source may have introduced it (case-insensitive namespace)
+    lower = lambda labels: [None if x is None else x.lower() for x in labels]
+    if strip_taxa(got) != strip_taxa(want) or lower(taxa_of(got)) != lower(taxa_of(want)):
         case.fail("route", "TreeList.read after TreeList.get", "appended trees differ from reading the source alone: %s" % first_diff(got, want),
                   first=docA["text"])
         return
@@ -573,8 +636,9 @@ def check_shared_identity(ctx, dendropy, docA, docB, tmpdir):
                 return
             key = nd.taxon.label if opts.get("case_sensitive_taxon_labels") else nd.taxon.label.lower()
             if by_label.setdefault(key, nd.taxon) is not nd.taxon:
-                if "translate" in (docA["text"] + docB["text"]).lower():
-                    continue   # TRANSLATE of a file without TAXA block may legitimately introduce a second taxon of the same label
+                both = (docA["text"] + docB["text"]).lower()
+                if "translate" in both and not re.search(r"begin\s+taxa", both):
+                    continue   # TRANSLATE in a file without TAXA block adds its labels behind the symbol mapper's back
                 case.fail("route", "TreeList.read after TreeList.get", "two Taxon objects with label %r in one namespace" % nd.taxon.label,
                           first=docA["text"])
                 return
@@ -668,12 +732,22 @@ def ascii_only(doc):
     return all(ord(ch) < 128 for ch in doc["text"])
 
 
+class BadNumber(Exception):
+    """a length or weight text the model carries verbatim is not a number: float() refuses it, i.e. a parse error"""
+
+
+def to_float(text):
+    try:
+        return float(text)
+    except ValueError:
+        raise BadNumber(text)
+
+
 class ModelCanon(object):
     """turn the model's JSON answer into the same records as `tree_rec` (labels of taxa through the model's namespace)"""
 
     def __init__(self, opts):
         self.extract = opts.get("extract_comment_metadata", True)
-        self.int_lengths = opts.get("edge_length_type") is int
 
     def split_comments(self, coms, item_is_tree=False):
         from dendropy.dataio import nexusprocessing
@@ -694,15 +768,20 @@ class ModelCanon(object):
         if w == "D":
             return frac(1.0)
         parts = unhex6(w).split("/")
+        if len(parts) > 2:
+            raise BadNumber(w)
         if len(parts) == 2:
-            return frac(float(parts[0]) / float(parts[1]))
-        return frac(float(parts[0]))
+            den = to_float(parts[1])
+            if den == 0:
+                raise BadNumber(w)
+            return frac(to_float(parts[0]) / den)
+        return frac(to_float(parts[0]))
 
     def node(self, n, labels):
         taxon, label, ln, coms, kids = n
         comments, ann = self.split_comments([unhex6(c) for c in coms])
         return [None if taxon is None else [labels[taxon], None], None if label is None else unhex6(label),
-                None if ln is None else frac(float(unhex6(ln))), comments, ann, [None, []],
+                None if ln is None else frac(to_float(unhex6(ln))), comments, ann, [None, []],
                 [self.node(k, labels) for k in kids]]
 
     def tree(self, t, labels):
@@ -737,6 +816,10 @@ def identity_pattern_impl(trees):
     return out
 
 
+def canon_err(e):
+    return "offset" if e in ("IndexError", "ValueError") else e
+
+
 class ModelSession(object):
     """collects protocol lines with the implementation's canonical answer, then asks the driver once"""
 
@@ -757,6 +840,8 @@ class ModelSession(object):
             self.ctx.compared()
             try:
                 ans = canon(json.loads(m))
+            except BadNumber:
+                ans = {"err": "parse"}     # float() of a length/weight is applied on this side for the model
             except Exception as e:
                 ans = "unreadable model answer %r (%s)" % (m[:80], e)
             if ans != impl_answer:
@@ -777,7 +862,7 @@ def impl_answer(fn, pattern=True):
         return {"err": err_name(e)}
 
 
-def correspond(ctx, dendropy, doc, session, blocks_shape):
+def correspond(ctx, dendropy, doc, session, blocks_shape, refusal_only=False):
     """every modelled route on the model and on the implementation (fresh namespaces)"""
     if not ascii_only(doc) or doc["opts"].get("case_sensitive_taxon_labels"):
         return
@@ -792,20 +877,20 @@ def correspond(ctx, dendropy, doc, session, blocks_shape):
 
     def canon_list(j):
         if "err" in j:
-            return {"err": j["err"]}
+            return {"err": canon_err(j["err"])}
         labels = [unhex6(x) for x in j["ns"]]
         return {"trees": [mc.tree(t, labels) for t in j["r"]], "ident": identity_pattern_model(j["r"])}
 
     def canon_blocks(j):
         if "err" in j:
-            return {"err": j["err"]}
+            return {"err": canon_err(j["err"])}
         labels = [unhex6(x) for x in j["ns"]]
         flat = [t for b in j["r"] for t in b]
         return {"blocks": [[mc.tree(t, labels) for t in b] for b in j["r"]], "ident": identity_pattern_model(flat)}
 
     def canon_tree(j):
         if "err" in j:
-            return {"err": j["err"]}
+            return {"err": canon_err(j["err"])}
         labels = [unhex6(x) for x in j["ns"]]
         return {"trees": [mc.tree(j["r"], labels)], "ident": identity_pattern_model([j["r"]])}
 
@@ -824,6 +909,11 @@ def correspond(ctx, dendropy, doc, session, blocks_shape):
                 impl_answer(lambda: impl_list(dendropy.Tree.yield_from_files([io.StringIO(text)], schema, **opts))), canon_list)
     session.add(model_line("dataset", doc, toks, tail), "DataSet.get", case,
                 impl_answer(lambda: impl_blocks(dendropy.DataSet.get(**kw))), canon_blocks)
+    if refusal_only:
+        # the reference route refuses the document: the model must refuse it on the same routes (kind of refusal compared)
+        # (list / yield / dataset above carry every length and weight of the source; a single-tree answer would hide a
+        #  non-numeric length in a later tree, which float() - applied on this side for the model - refuses)
+        return
     shape = blocks_shape if blocks_shape is not None else []
     offs = []
     for c, n in enumerate(shape):
@@ -891,13 +981,35 @@ def correspond_incremental(ctx, dendropy, docA, docB, session):
 
     def canon(j2):
         if "err" in j2:
-            return {"err": j2["err"]}
+            return {"err": canon_err(j2["err"])}
         labels = [unhex6(x) for x in j2["ns"]]
         trees = j2["r"][len(j["r"]):]
         return {"trees": [mc.tree(t, labels) for t in trees], "ident": identity_pattern_model(j["r"] + trees)}
     line = model_line("list", docB, toksB, tailB, ns_title=None if j["title"] is None else unhex6(j["title"]),
                       ns_labels=[unhex6(x) for x in j["ns"]], existing=len(j["r"]))
     session.add(line, "TreeList.read after get", {"schema": schema, "first": docA["text"], "text": docB["text"], "opts": opts}, impl, canon)
+    # DataSet.read into a data set that already holds the collections of A (no attached namespace: B gets namespaces of its own)
+    try:
+        with time_limit(ROUTE_TIMEOUT):
+            ds = dendropy.DataSet.get(data=docA["text"], schema=schema, **opts)
+            n0 = len(ds.tree_lists)
+            ds.read(data=docB["text"], schema=schema, **opts)
+    except Exception:
+        return
+    new_lists = ds.tree_lists[n0:]
+    impl2 = {"before": n0, "blocks": [[tree_rec(t, tk) for t in tl_] for tl_ in new_lists],
+             "ident": identity_pattern_impl([t for tl_ in new_lists for t in tl_])}
+
+    def canon2(j3):
+        if "err" in j3:
+            return {"err": canon_err(j3["err"])}
+        labels = [unhex6(x) for x in j3["ns"]]
+        old, new = j3["r"][:n0], j3["r"][n0:]
+        untouched = all(len(b) == 1 and b[0]["n"] is not None and unhex6(b[0]["n"]) == "e%d" % i for i, b in enumerate(old))
+        return {"before": n0 if untouched else "existing collections changed",
+                "blocks": [[mc.tree(t, labels) for t in b] for b in new], "ident": identity_pattern_model([t for b in new for t in b])}
+    session.add(model_line("dataset", docB, toksB, tailB, existing=n0), "DataSet.read into a populated data set",
+                {"schema": schema, "first": docA["text"], "text": docB["text"], "opts": opts}, impl2, canon2)
 
 
 # ------------------------------------------------------------------------------------------ NeXML (implementation only)
@@ -931,6 +1043,8 @@ def one_document(ctx, dendropy, doc, tmpdir, session, full=True, kind=None):
         ctx.count("unreadable:" + str(res[1]))
         ctx.case([doc["schema"], doc["text"], doc["opts"]], False, kind="unreadable")
         check_refused_by_list_only(ctx, dendropy, doc)
+        if doc["schema"] in ("newick", "nexus") and session is not None:
+            correspond(ctx, dendropy, doc, session, None, refusal_only=True)
         return None
     case, ref, blocks = res
     shape = None if blocks is None else [len(b) for b in blocks]
@@ -939,13 +1053,19 @@ def one_document(ctx, dendropy, doc, tmpdir, session, full=True, kind=None):
              sample={"schema": doc["schema"], "text": doc["text"][:400], "opts": doc["opts"], "collections": shape},
              kind=kind or doc["schema"])
     ctx.count("trees", len(ref))
+    if doc["schema"] == "nexus":
+        ctx.count("nexus_docs_without_sets_blocks(reader_eq_yielder_partial applies)"
+                  if not re.search(r"(?i)begin\s+(sets|assumptions|codons)\b", doc["text"]) else "nexus_docs_with_sets_blocks(correspondence only)")
     if shape is not None:
         ctx.count("collections", len(shape))
     info = doc.get("info") or {}
     if not (info.get("chars") and not info.get("taxa_block")):
         # (a DATA block that itself declares NTAX is only read into a fresh namespace: the reader counts taxa already in the
         #  namespace against NTAX, so a namespace filled by a route that skips the matrix is refused by the next route)
-        check_tree_routes(ctx, dendropy, doc, "shared", tmpdir, full)
+        res2 = check_tree_routes(ctx, dendropy, doc, "shared", tmpdir, full)
+        if res2[0] is None:
+            Case(ctx, doc, "shared").fail("route-error", "TreeList.get(taxon_namespace=)", "refuses the source (%s) that TreeList.get "
+                                          "reads into a namespace of its own" % res2[1])
     if doc["schema"] in ("newick", "nexus") and session is not None:
         correspond(ctx, dendropy, doc, session, shape)
     return shape
@@ -970,6 +1090,9 @@ def run(ctx):
                 continue
             if doc["schema"] == "nexus" and doc.get("info", {}).get("chars"):
                 ctx.count("matrix_routes", check_matrices(ctx, dendropy, doc, tmpdir))
+            if i % 8 == 5 and not (doc.get("info") or {}).get("chars"):
+                # (a damaged CHARACTERS block is seen by the data set only: the tree routes skip the block unparsed)
+                one_document(ctx, dendropy, c13docs.damage(rng, doc), tmpdir, session, full=False, kind="damaged")
             # a second source with the same options, read after the first one
             if i % 3 == 0:
                 doc2 = (c13docs.gen_newick if doc["schema"] == "newick" else c13docs.gen_nexus)(rng, "small", like=doc["info"])
@@ -1024,6 +1147,9 @@ def replay(ctx, rec):
         else:
             for mode in ([c["mode"]] if c.get("mode") else ["fresh", "shared"]):
                 res = check_tree_routes(ctx, dendropy, doc, mode, tmpdir, True)
+                if mode == "shared" and res[0] is None and check_tree_routes(ctx, dendropy, doc, "fresh", tmpdir, False)[0] is not None:
+                    Case(ctx, doc, "shared").fail("route-error", "TreeList.get(taxon_namespace=)", "refuses the source (%s) that "
+                                                  "TreeList.get reads into a namespace of its own" % res[1])
             if doc["schema"] in ("newick", "nexus") and res[0] is not None:
                 blocks = res[2]
                 correspond(ctx, dendropy, doc, session, None if blocks is None else [len(b) for b in blocks])
